@@ -573,7 +573,7 @@ PROPERTY = {
                    "the hand-written sympy rotation matrices, the index<->bitstring conversion and the exact frequency extraction, for every placement up "
                    "to the bound and every real angle (exact ring normal forms), against cirq's / sympy's DOCUMENTED gate definitions (assumed contracts, "
                    "validated against the real libraries in the bounded layer). The advertised statevector order and the end-to-end statement are "
-                   "checked by executing the real backends (bounded), including histories of simulations on ONE backend object (O11: default / supplied initial states, rebuilt equal circuits, sampled mode interleaved). Unbounded: the gate loops of both translators for circuits of ANY length (P3 / P4: loop cut, one generic iteration on an arbitrary translated prefix).",
+                   "checked by executing the real backends (bounded), including histories of simulations on ONE backend object (O11: default / supplied initial states, rebuilt equal circuits, sampled mode interleaved). Unbounded: the gate loops of both translators for circuits of ANY length (P3 / P4: loop cut, one generic iteration on an arbitrary translated prefix). Sampling with the sampler opaque, also for shot numbers around and beyond the chunk sizes (O7c: counts accumulated over ALL requests).",
     "bounds": {"quick": "single gates of every supported name with 0-3 controls on 3-4 qubits (sampled placements), 2-gate order tests; registers <= 8 qubits for index conversion; 24 random circuits end-to-end",
                "thorough": "all placements; 300 random circuits"},
     "assumptions": ["cirq and sympy implement their documented gate definitions (recorded in tverif/fakes.py; validated numerically by C01.O5)",
